@@ -11,10 +11,10 @@ sys.path.insert(0, os.path.dirname(os.path.abspath(__file__)))
 SBX = "@"       # stands for the absolute sandbox path in names (node names, stale-file paths)
 
 # ----------------------------------------------------------------------------------------------- model
-def node(kind, path, filt=(), ts=False, mut=False):
+def node(kind, path, filt=(), ts=False, mut=False, msa=()):
     """ts: a virtual node carrying its producer's run time (is-command-timestamp); mut: a file other commands modify in
     place (is-mutated: only its existence counts for the validity of its producer's result)"""
-    return dict(kind=kind, path=path, filt=list(filt), ts=ts, mut=mut)
+    return dict(kind=kind, path=path, filt=list(filt), ts=ts, mut=mut, msa=list(msa))      # msa: must-scan-after-paths (directory inputs)
 
 def cmd(tool="shell", ins=(), outs=(), tag="", reads=(), failif="", failpt="before", aood=False, ami=False, amo=False,
         extra=(), env=(), signature="", depstyle="makefile", depsok=True, expected=(), roots=(), spell=None, inherit_env=True, keep=False, mutates=""):
@@ -168,6 +168,7 @@ def render(desc, nodes, abs_prefix):
             elif sp == "isdir" or not n.endswith("/"): attrs.append("is-directory: true")
         if nd["kind"] == "dirstruct": attrs.append("type: directory-structure" if sp != "isds" else "is-directory-structure: true")
         if nd["filt"]: attrs.append("content-exclusion-patterns: " + ylist(nd["filt"]))
+        if nd.get("msa"): attrs.append("must-scan-after-paths: " + ylist([R(x) for x in nd["msa"]]))
         if attrs: nl.append("  %s:\n" % yq(R(n)) + "\n".join("    " + a for a in attrs))
     if nl: L += ["", "nodes:"] + nl
     L += ["", "commands:"]
@@ -336,6 +337,6 @@ def finish_case(case):
             fs0.setdefault(d, dict(t="dir" if fs0[p]["t"] != "none" else "none", c=""))
             if fs0[p]["t"] != "none": fs0[d]["t"] = "dir"
             d = os.path.dirname(d)
-    case["nodes_spec"] = {n: dict(kind=v["kind"], path=v["path"], filt=v["filt"], inner=v.get("inner", ""), rootnode=v.get("rootnode", ""), ts=bool(v.get("ts")), mut=bool(v.get("mut"))) for n, v in case["nodes"].items()}
+    case["nodes_spec"] = {n: dict(kind=v["kind"], path=v["path"], filt=v["filt"], inner=v.get("inner", ""), rootnode=v.get("rootnode", ""), ts=bool(v.get("ts")), mut=bool(v.get("mut")), msa=list(v.get("msa", []))) for n, v in case["nodes"].items()}
     case.setdefault("paths", {})
     return case
